@@ -300,6 +300,9 @@ type TLCOpts struct {
 	Workers  int
 	Tag      string
 	Simulate bool
+	// StdoutFile: write TLC's output to this file instead of keeping it in memory (large dumps); Out then
+	// only holds the lines that are not dump lines
+	StdoutFile string
 }
 
 type TLCResult struct {
@@ -349,8 +352,34 @@ func (c *Ctx) TLC(o TLCOpts) (*TLCResult, error) {
 	var buf bytes.Buffer
 	cmd.Stdout = &buf
 	cmd.Stderr = &buf
+	var outf *os.File
+	if o.StdoutFile != "" {
+		f, ferr := os.Create(o.StdoutFile)
+		if ferr != nil {
+			return nil, Brokenf("TLC output file: %v", ferr)
+		}
+		outf = f
+		cmd.Stdout = f
+	}
 	start := time.Now()
 	err := cmd.Run()
+	if outf != nil {
+		outf.Close()
+		// keep TLC's own messages (everything that is not a dump line) for statistics and error reporting
+		if f, ferr := os.Open(o.StdoutFile); ferr == nil {
+			rd := bufio.NewReaderSize(f, 1<<20)
+			for {
+				line, rerr := rd.ReadBytes('\n')
+				if len(line) > 0 && !bytes.HasPrefix(line, []byte("\"{")) {
+					buf.Write(line)
+				}
+				if rerr != nil {
+					break
+				}
+			}
+			f.Close()
+		}
+	}
 	res := &TLCResult{Out: buf.String(), Wall: time.Since(start)}
 	os.RemoveAll(meta)
 	if ctx.Err() == context.DeadlineExceeded {
